@@ -85,6 +85,8 @@ def c16_load_oracle(case, trace):
             yield "the error of load_test(%s) is not the error (message, locations) of parsing that source and binding it: %s" % (r.split()[0], r[:300])
         if t == "LOADEDIT" and r.split()[1] != "same":
             yield "after an edit of the public test_cases[%s].source / signals, load_test is not parse + bind of the edited data: %s" % (r.split()[0], r[:300])
+        if t == "LOADNAME" and not r.startswith("same"):
+            yield "after a rename of a test (public field test_cases[i].name) load_test_by_name does not go by the names the file has now: %s" % r[:300]
         if t == "ENTRY" and not r.startswith("same"):
             yield "File::parse, the FromStr impl and File::open (on a file with the same text) disagree: %s" % r[:300]
     oob = [r for t, r in trace if t == "LOADOOB"]
